@@ -134,7 +134,22 @@ def ev1(facts, rep):
         stop = set(hdrs)
         rs, re_ = eng_gd.region(b, st_edge, stop=stop), eng_gd.region(b, en_edge, stop=stop)
         only_s, only_e = rs - re_, re_ - rs
-        if all(x in only_s for x in gets) and all(x in only_e for x in sets):
+        # both address the tree by the event's own column (its second coordinate): an offset on one side only shifts the
+        # "strictly before" relation between chained matches
+        def col_arg(bb):
+            e = b.expr_operand(b.term(bb)['args'][1], inline_user=True)
+            return poly(e)
+        offs = []
+        for x in gets + sets:
+            pa = col_arg(x)
+            rest = {m: v for m, v in pa.items() if m != ()}
+            plain = len(rest) == 1 and list(rest.values()) == [1] and list(rest)[0][0].endswith('.1') and () not in pa
+            if not plain:
+                offs.append((x, pstr(pa)))
+        if offs:
+            rep.bad(rule, key2, b.loc(offs[0][0]), 'the Fenwick tree is addressed at `%s`, not at the event column: chains may use a match '
+                                                   'that does not end strictly before the next one starts' % offs[0][1][:80])
+        elif all(x in only_s for x in gets) and all(x in only_e for x in sets):
             rep.ok(rule, key2, b.loc(gbb), 'start: query; end: update')
         else:
             rep.bad(rule, key2, b.loc(gbb), 'the Fenwick tree is queried on the end edge or updated on the start edge of '
